@@ -206,6 +206,7 @@ def step (st0 : St) (e : Ev) : St :=
   let st := { st0 with out := [] }
   match e with
   | .start id key blocking nfrags timeout =>
+    if st.reqs.any (·.id == id) then st else            -- request ids are fresh (task identities)
     if !st.isOpen then emit st (.done id .runtimeError) else
     let st := { st with reqs := st.reqs ++ [{ id, key, blocking, nfrags, timeout }],
                         listeners := st.listeners ++ [(id, key)], ready := st.ready ++ [id] }
